@@ -173,7 +173,7 @@ def execute(ops, watchdog=20):
     except subprocess.TimeoutExpired:
         return {"timeout": True, "lines": [], "stderr": ""}
     lines = [l.split() for l in p.stdout.decode("latin1").strip().split("\n") if l.strip()]
-    return {"timeout": False, "rc": p.returncode, "lines": lines, "stderr": p.stderr[-3000:].decode("latin1")}
+    return {"timeout": False, "rc": p.returncode, "lines": lines, "stderr": p.stderr[-20000:].decode("latin1")}
 
 
 def job(item):
@@ -271,29 +271,40 @@ def bfs(ck, init, max_depth, stats):
     return len(seen), transitions, depth, samples, complete and not frontier
 
 
-PROBE_VALUES = (-2, -1, 3, 9, 64, 1000, 2147483647)
+PROBE_VALUES = (1000, -2, 3, 2147483647, -1, 9, 64)
 PROBE_SKIP = ("rc_twopass_stats_in", "rc_firstpass_stats_out", "pred_struct", "channel_id", "active_channel_count")
+
+
+def spx(elem, v):
+    """SPX operand: single deviation elem=v, or a grouped deviation (elem holds the assignments, v is ignored)"""
+    return "SPX:%s" % elem if "=" in elem else "SPX:%s=%d" % (elem, v)
 
 
 def probe_job(item):
     elem, v = item
-    return execute(["IH", "SPX:%s=%d" % (elem, v), "SP", "DEINIT", "DH"])
+    return execute(["IH", spx(elem, v), "SP", "DEINIT", "DH"])
 
 
 def full_job(item):
     elem, v = item
-    return execute(["IH", "SPX:%s=%d" % (elem, v), "SP", "IN", "SEND", "EOS", "DRAIN", "DEINIT", "DH"])
+    return execute(["IH", spx(elem, v), "SP", "IN", "SEND", "EOS", "DRAIN", "DEINIT", "DH"])
+
+
+# count fields that drive copies of neighbouring arrays: the count together with its enabling switch
+GROUPS = ["enable_manual_pred_struct=1,manual_pred_struct_entry_num=%d" % v for v in (-1, 0, 1, 2, 3, 4, 8, 31, 32, 33, 1000)] + \
+         ["enable_hme_flag=1,use_default_me_hme=0,number_hme_search_region_in_width=%d,number_hme_search_region_in_height=%d" % (a, b)
+          for a in (0, 1, 2, 3, 1000) for b in (0, 1, 2, 3, 1000)]
 
 
 def reject_sweep(ck, tier, stats):
     """every configuration element x a fixed value menu: whenever svt_av1_enc_set_parameter rejects the configuration, the same handle must
     accept a valid configuration afterwards (cheap probe for every rejected (element, value)) and run a whole session (one value per element)"""
     elems = [e for e in element_names() if not e.startswith(PROBE_SKIP)]
-    items = [(e, v) for e in elems for v in PROBE_VALUES]
+    items = [(g, 0) for g in GROUPS] + [(e, v) for v in PROBE_VALUES for e in elems]   # value-major: every element is probed before the second value starts
     res, done = vlib.pmap_deadline(probe_job, items, time.time() + 0.25 * ck.budget)
     rejected, per_elem = 0, {}
     for (e, v), r in res:
-        hist, op, comp = ["IH"], "SPX:%s=%d" % (e, v), ["SP", "DEINIT", "DH"]
+        hist, op, comp = ["IH"], spx(e, v), ["SP", "DEINIT", "DH"]
         if blocked(r):
             r = execute(hist + [op] + comp, watchdog=150)
             stats["watchdog_reruns"] = stats.get("watchdog_reruns", 0) + 1
@@ -307,9 +318,11 @@ def reject_sweep(ck, tier, stats):
             continue
         judge_after_reject(ck, e, hist, op, comp, r, seq, rc)
     full = sorted(per_elem.items())
+    if tier == "quick":   # groups first, then every 5th element
+        full = [x for x in full if "=" in x[0]] + [x for x in full if "=" not in x[0]][::5]
     res2, done2 = vlib.pmap_deadline(full_job, full, time.time() + 0.15 * ck.budget)
     for (e, v), r in res2:
-        hist, op, comp = ["IH"], "SPX:%s=%d" % (e, v), ["SP", "IN", "SEND", "EOS", "DRAIN", "DEINIT", "DH"]
+        hist, op, comp = ["IH"], spx(e, v), ["SP", "IN", "SEND", "EOS", "DRAIN", "DEINIT", "DH"]
         if blocked(r):
             r = execute(hist + [op] + comp, watchdog=150)
             stats["watchdog_reruns"] = stats.get("watchdog_reruns", 0) + 1
@@ -321,13 +334,15 @@ def reject_sweep(ck, tier, stats):
 
 def judge_after_reject(ck, e, hist, op, comp, r, seq, rc):
     rep = {"history": hist, "op": op, "completion": comp}
-    field = e.split(".")[0]
+    field = ",".join(sorted(set(t.split("=")[0].split(".")[0] for t in e.split(","))))
+    ops = hist + [op] + comp
     if blocked(r) or r.get("rc") != 0:
         bad = [l for l in r["lines"] if l and l[0] in ("WATCHDOG", "SIGNAL")]
-        failing = bad[0][-1] if bad else (seq[-1][0] if seq else "?")
-        what = "blocks" if blocked(r) else ("crashes (signal %s)" % bad[0][1] if bad else "sanitizer report %s" % (enc.sanitizer_site(r.get("stderr", "")),))
+        failing = ops[len(seq)] if len(seq) < len(ops) else "exit"   # the call after the last one that returned
+        site = enc.sanitizer_site(r.get("stderr", ""))
+        what = "blocks" if blocked(r) else ("crashes (signal %s)" % bad[0][1] if bad else "sanitizer report %s" % (site,))
         if failing.startswith("SPX:"):
-            ck.violation("C14:%s:SPX:%s" % ("blocks" if blocked(r) else "crash", field), "%s %s" % (op, what), rep)
+            ck.violation("C14:%s:SPX:%s" % ("blocks" if blocked(r) else "crash", field), "svt_av1_enc_set_parameter with %s %s" % (op[4:], what), rep)
         else:
             ck.violation("C14:session-unusable-after-rejection:%s" % field, "after %s (returned %s) %s %s" % (op, "%#x" % (rc & 0xffffffff) if rc is not None else "?", failing, what), rep)
         return
